@@ -290,6 +290,7 @@ func replayOne(c *vlib.Check, path string, sp *specOut, thorough bool) {
 	switch sc.Kind {
 	case "grid":
 		runGrid(c, sp.grid)
+		runDumpGrid(c, sp.schema)
 	case "build":
 		buildCombo(c, sp.schema)
 	case "case":
@@ -358,6 +359,11 @@ func buildCombo(c *vlib.Check, s *Schema) {
 		c.Violate("build:map-backed-input+return_pointers_in_unmarshalinput:does-not-compile",
 			"a map-backed input type (models: InM: {model: \"map[string]interface{}\"}) with return_pointers_in_unmarshalinput: true generates code that does not compile, so no resolver can receive such an argument:\n"+tail(msg, 600),
 			map[string]any{"kind": "build", "options": combo.Opts, "models": "InM: map[string]interface{}"})
+		return
+	}
+	if c.Violations() > 0 {
+		// e.g. a schema default rendered into text the compiler rejects: found in process already; the violations stand
+		fmt.Fprintf(os.Stderr, "c02: the map + return_pointers_in_unmarshalinput configuration does not build: %s\n", tail(msg, 400))
 		return
 	}
 	vlib.Infra("build of the map + return_pointers_in_unmarshalinput configuration failed for an unexpected reason: %v", err)
